@@ -28,7 +28,19 @@ def _list(module, tier):
     return json.loads(p.stdout.strip().splitlines()[-1])
 
 
+STOP = {"flag": False, "fail_fast": False}
+
+
 def _run_one(module, tier, ob, prop, seed, tmpdir):
+    if STOP["flag"]:
+        return {"name": ob["name"], "module": module, "verdict": "SKIPPED", "paths": 0, "hist": {}, "wall_s": 0}
+    r = _run_one_(module, tier, ob, prop, seed, tmpdir)
+    if STOP["fail_fast"] and r.get("verdict") == "REFUTED":
+        STOP["flag"] = True
+    return r
+
+
+def _run_one_(module, tier, ob, prop, seed, tmpdir):
     out = os.path.join(tmpdir, hashlib.sha1((module + ob["name"]).encode()).hexdigest() + ".json")
     hard = ob["timeout"] * 1.6 + 240
     t0 = time.time()
@@ -58,8 +70,10 @@ def main():
     ap.add_argument("--only", default=None)
     ap.add_argument("--jobs", type=int, default=int(os.environ.get("VERIF_JOBS", "0")) or min(16, os.cpu_count() or 4))
     ap.add_argument("--no-evidence", action="store_true")
+    ap.add_argument("--fail-fast", action="store_true", help="skip obligations not yet started once one is refuted (used by the seeded-change runner)")
     a = ap.parse_args()
     prop = a.prop
+    STOP["fail_fast"] = a.fail_fast
     seed = int(os.environ.get("VERIF_SEED", "0") or 0)
 
     if a.replay:
@@ -154,7 +168,7 @@ def main():
     wall = round(time.time() - t0, 1)
     print(f"{prop} tier={a.tier}: obligations={n_ob} confirmed={confirmed} not_exhausted={len(not_exh)} violations={len(violations)} harness_errors={len(harness_errors)} paths={paths} z3_queries={queries} solver_time={stime:.1f}s wall={wall}s")
 
-    if not a.no_evidence and not a.only:
+    if not a.no_evidence and not a.only and not a.fail_fast:
         samples = []
         for r in results:
             for s in (r.get("samples") or [])[:2]:
